@@ -281,7 +281,7 @@ impl Engine for C05 {
     }
     fn runs(&self, tier: Tier) -> u64 {
         match tier {
-            Tier::Quick => 12_000,
+            Tier::Quick => 24_000,
             Tier::Thorough => 400_000,
         }
     }
